@@ -1295,6 +1295,31 @@ func (e *Engine) tripCount(h *ssa.BasicBlock, ifr *frame, lc *loopCtx, iters []*
 	}
 	down := c.Name == ">" || c.Name == ">="
 	tested, bound := c.Args[0], c.Args[1]
+	// `i <= n` steps once more after i == n and `i >= n` once below n: in a narrow or unsigned counter type that step
+	// wraps when n is the type's largest (smallest) value, and the loop does not end there – not a counted loop unless
+	// the bound provably stays inside the type
+	if cb, isB := bo.X.Type().Underlying().(*types.Basic); isB && cb.Info()&types.IsInteger != 0 && (c.Name == "<=" || c.Name == ">=") {
+		bits, uns := intBits(cb)
+		if bits > 0 && (bits < 64 || uns) {
+			one := constant.MakeInt64(1)
+			var tmax, tmin constant.Value
+			if uns {
+				tmax, tmin = constant.BinaryOp(constant.Shift(one, token.SHL, uint(bits)), token.SUB, one), constant.MakeInt64(0)
+			} else {
+				h := constant.Shift(one, token.SHL, uint(bits-1))
+				tmax, tmin = constant.BinaryOp(h, token.SUB, one), constant.UnaryOp(token.SUB, h, 0)
+			}
+			inside := false
+			if bound.IsConst() && bound.C != nil && bound.C.Kind() == constant.Int {
+				inside = (c.Name == "<=" && constant.Compare(bound.C, token.LSS, tmax)) || (c.Name == ">=" && constant.Compare(bound.C, token.GTR, tmin))
+			} else if lo, hi, okR := typeRangeOf(bound); okR {
+				inside = (c.Name == "<=" && constant.Compare(hi, token.LSS, tmax)) || (c.Name == ">=" && constant.Compare(lo, token.GTR, tmin))
+			}
+			if !inside {
+				return unknown, ""
+			}
+		}
+	}
 	// over the integers  v >= N  is  v > N-1  and  v <= N  is  v < N+1
 	switch c.Name {
 	case ">=":
